@@ -152,9 +152,19 @@ def make_child(path, names, sample, k):
         if sample is None:
             raise
         return make_child(path, names, None, k)  # a sampled child the tool does not accept is C02's business, not this check's
+    if k % 4 == 3:
+        # an image signed by somebody else's tooling: a further authentication block with an algorithm this tool does not model (HSS-LMS,
+        # one of the mandatory SUIT profiles) - the child is taken as the file it is
+        t = cb.loads(data)
+        auth = cb.loads(t.value.get(2)) + [cb.enc(cb.Tag(18, [cb.enc(cb.Pairs([(1, -46)])), cb.Pairs([(4, b"\x01")]), None, bytes(range(80))]))]
+        data = cb.enc(cb.Tag(107, cb.Pairs([(kk, cb.enc(auth) if kk == 2 else vv) for kk, vv in t.value])))
+        FOREIGN["n"] = FOREIGN.get("n", 0) + 1
     with open(path, "wb") as fh:
         fh.write(data)
     return data
+
+
+FOREIGN = {}
 
 
 def judge(case, acc, ctx):
@@ -185,7 +195,7 @@ def judge(case, acc, ctx):
     for s in subset:
         cores.append(f"{s},{art}{s}_core.bin,,{art}empty.config")
         make_child(f"{art}{rename.get(s, s)}.suit", names[s], samples.get(s), k)
-    classes = [f"template:{template}", f"subset:{'+'.join(subset)}", ("mixed-case-names" if custom == "mixed" else "markup-names" if custom == "markup" else "custom-names") if custom else "default-names", f"version:{ver}"] + (["free-text-image-names"] if rename else [])
+    classes = [f"template:{template}", f"subset:{'+'.join(subset)}", ("mixed-case-names" if custom == "mixed" else "markup-names" if custom == "markup" else "custom-names") if custom else "default-names", f"version:{ver}"] + (["free-text-image-names"] if rename else []) + (["child-with-foreign-authentication-block"] if k % 4 == 3 else []) + (["description-stored-beside-older-children"] if case.get("yaml_elsewhere") else [])
     acc.case(nt_key=(template, subset, custom, ver, k, bool(rename), json.dumps(G.shape(samples))), classes=classes, sample={kk: v for kk, v in case.items() if kk != "children"},
              sample_key=f"{template}/{'+'.join(subset)}/{ver}")
     try:
@@ -209,7 +219,20 @@ def judge(case, acc, ctx):
             try:
                 rendered = B.render_template(boot.ncs_path(tpl), data)
                 desc = yaml.safe_load(rendered)
-                envb = sut.create_mem(desc)
+                if case.get("yaml_elsewhere"):
+                    # the rendered description is stored in a delivery directory that still holds the children of an EARLIER build under the
+                    # same names; the tool runs in the artifacts directory: every reference to a child means the file found from there
+                    deliv = os.path.join(ctx.scratch, "delivery") + os.sep
+                    os.makedirs(deliv, exist_ok=True)
+                    for s_ in subset:
+                        make_child(f"{deliv}{rename.get(s_, s_)}.suit", names[s_], None, k + 8)
+                    with open(deliv + "envelope.yaml", "w", encoding="utf-8") as fh:
+                        fh.write(rendered)
+                    if os.path.exists(deliv + "envelope.suit"):
+                        os.unlink(deliv + "envelope.suit")
+                    envb = sut.create_from_file(deliv + "envelope.yaml", deliv + "envelope.suit")
+                else:
+                    envb = sut.create_mem(desc)
             finally:
                 os.chdir(old_cwd)
         else:
@@ -250,7 +273,7 @@ VERSION_FILES = {
     "file-prerelease": ("VERSION_MAJOR = 1\nVERSION_MINOR = 2\nPATCHLEVEL = 3\nEXTRAVERSION = rc1\n", ((1 << 24) + (2 << 16) + (3 << 8), [1, 2, 3, -1, 1])),
     "file-unsupported-extra": ("VERSION_MAJOR = 1\nVERSION_MINOR = 2\nPATCHLEVEL = 3\nVERSION_TWEAK = 0\nEXTRAVERSION = dev\n", ((1 << 24) + (2 << 16) + (3 << 8), [1, 2, 3, -3])),
 }
-EXTRA_CONFIGURATIONS = 25
+EXTRA_CONFIGURATIONS = 27
 # image names are free text (the '#name' by which the envelope is fetched and integrated, and its file name)
 IMAGE_NAMES = {"radio": "radio core", "application": "Anwendung-\u00e4", "top": "top^1|x", "secdom": "sec dom", "sysctrl": "sys`ctrl"}
 
@@ -269,6 +292,8 @@ def configurations():
     yield {"template": "root", "subset": ["radio", "application", "top"], "custom": True, "ver": "none", "cwd_artifacts": True}
     yield {"template": "root", "subset": ["application"], "custom": False, "ver": "file", "cwd_artifacts": True}
     yield {"template": "top", "subset": ["secdom", "sysctrl"], "custom": False, "ver": "override", "cwd_artifacts": True}
+    yield {"template": "root", "subset": ["radio", "application"], "custom": False, "ver": "none", "cwd_artifacts": True, "yaml_elsewhere": True}
+    yield {"template": "top", "subset": ["secdom", "sysctrl"], "custom": False, "ver": "none", "cwd_artifacts": True, "yaml_elsewhere": True}
     for subset in itertools.chain.from_iterable(itertools.combinations(["radio", "application", "top"], r) for r in range(1, 4)):
         for custom in (False, True, "mixed", "markup"):
             for ver in ("none", "file", "override"):
@@ -330,4 +355,4 @@ def finalize(ctx, m, ev):
     ev["coverage"]["exhaustive"] = m["info"].get("configurations") == 87 + EXTRA_CONFIGURATIONS
     ev["coverage"]["exhaustive_scope"] = "configuration product (7 subsets x 4 name sets x 3 + top x 3 = 87, plus 15 VERSION-file cells and 3 runs from inside the artifacts directory) enumerated completely; child envelopes sampled"
     if m["info"].get("configurations") != 87 + EXTRA_CONFIGURATIONS:
-        raise boot.HarnessError(f"{m['info'].get('configurations')} of 112 configurations covered")
+        raise boot.HarnessError(f"{m['info'].get('configurations')} of 114 configurations covered")
